@@ -57,6 +57,11 @@ def events_for(darsia, rng, shape, h, tid, integer_h):
     d2 = darsia.FVDivergence(grid)
     ev.append(div_entries(d2))
     ev.append(div_entries(d1))
+    # the caller rescales ITS operator in place (sign convention, units) and somebody builds the operator of the grid again
+    if d1.mat.nnz:
+        d1.mat.data *= -3.0
+        ev.append(div_entries(darsia.FVDivergence(grid)))
+        ev.append(div_entries(d2))
 
     def mass_entries(op, mode):
         M = op.mat.tocoo()
@@ -75,6 +80,10 @@ def events_for(darsia, rng, shape, h, tid, integer_h):
         m2 = darsia.FVMass(grid, mode)
         ev.append(mass_entries(m2, mode))
         ev.append(mass_entries(m1, mode))
+        if m1.mat.nnz:
+            m1.mat.data *= 3.0       # as above: the caller's own matrix, modified in place
+            ev.append(mass_entries(darsia.FVMass(grid, mode), mode))
+            ev.append(mass_entries(m2, mode))
     if nf == 0:
         return ev
     # face -> cell reconstruction at rational reference points.  ONE caller-owned flux array serves all these calls (and the
@@ -126,6 +135,13 @@ def events_for(darsia, rng, shape, h, tid, integer_h):
                 ev[-1]["res"] = [[BADINT] * nf] * (dim - 1)
             full = F_op(arr_)
             ev.append(dict(base, op="full", u=ul, res=[[qi(4 * x) for x in row] for row in full]))
+        # the caller reweights its reconstruction matrices in place; operators built for the grid afterwards are new ones
+        for m_ in (T_op.mat if isinstance(T_op.mat, (list, tuple)) else [T_op.mat]):
+            if hasattr(m_, "data") and m_.nnz:
+                m_.data *= 2.0
+        ul = [int(x) for x in ub]
+        ev.append(dict(base, op="tang", u=ul, res=[[qi(4 * x) for x in comp] for comp in darsia.FVTangentialFaceReconstruction(grid)(ub, False)]))
+        ev.append(dict(base, op="full", u=ul, res=[[qi(4 * x) for x in row] for row in darsia.FVFullFaceReconstruction(grid)(ub)]))
         uc = [1] * nf
         trc = darsia.FVTangentialFaceReconstruction(grid)(np.array(uc, dtype=float), False)
         ev.append(dict(base, op="tang", u=uc, res=[[qi(4 * x) for x in comp] for comp in trc]))
